@@ -74,6 +74,15 @@ func typeKey(t types.Type) string {
 		return obj.Pkg().Path() + "." + obj.Name()
 	case *types.Alias:
 		return typeKey(types.Unalias(tt))
+	case *types.Basic:
+		// byte and uint8 (rune and int32) are the same type
+		if int(tt.Kind()) < len(types.Typ) && types.Typ[tt.Kind()] != nil {
+			return types.Typ[tt.Kind()].Name()
+		}
+	case *types.Slice:
+		return "[]" + typeKey(tt.Elem())
+	case *types.Pointer:
+		return "*" + typeKey(tt.Elem())
 	}
 	return t.String()
 }
